@@ -8,11 +8,14 @@ package shmipc
 //   map                                 mappingBufferManager on the bytes the creator wrote
 //   verify <cap> size:percent ...       VerifyConfig's verdict for (ShareMemoryBufferCap=cap, pairs)
 //   queue <cap>                         geometry of both queues as the creator and as the mapper see them
+//   qmgr <file|memfd> <cap>             the same through createQueueManager* / mappingQueueManager* (real file / memfd)
 
 import (
 	"fmt"
 	"math/rand"
+	"os"
 	"strings"
+	"sync/atomic"
 	"unsafe"
 
 	syscall "golang.org/x/sys/unix"
@@ -89,6 +92,9 @@ func c03Gen(r *rand.Rand, tier string, idx int) []string {
 	ops = append(ops, fmt.Sprintf("create %d %s", memLen, strings.Join(ps, " ")))
 	ops = append(ops, "map")
 	ops = append(ops, fmt.Sprintf("queue %d", []int{0, 1, 2, 3, 8, 1024, r.Intn(70000)}[r.Intn(7)]))
+	if r.Intn(3) == 0 {
+		ops = append(ops, fmt.Sprintf("qmgr %s %d", []string{"file", "memfd"}[r.Intn(2)], []int{1, 2, 3, 7, 8, 9, 1001, 4095, 8192, r.Intn(70000)}[r.Intn(10)]))
+	}
 	return ops
 }
 
@@ -125,6 +131,8 @@ func c03ShowQ(q *queue, mem []byte) string {
 	hb := p(unsafe.Pointer(q.head)) - 4
 	return fmt.Sprintf("%d/%d/%d/%d/%d/%d/%d", hb, q.cap, p(unsafe.Pointer(q.head)), p(unsafe.Pointer(q.tail)), p(unsafe.Pointer(q.workingFlag)), ringOff, ringEnd)
 }
+
+var c03Seq uint64
 
 type c03Run struct {
 	mem      []byte
@@ -307,6 +315,72 @@ func c03Exec(ops []string) vResult {
 					c.setFail("queue-crosswire", "element put on the mapper's send queue did not come out of the creator's receive queue")
 				}
 			}
+		case len(f) == 3 && f[0] == "qmgr" && (f[1] == "file" || f[1] == "memfd"):
+			// the same geometry through the REAL creation / mapping entry points (two mappings of one file or memfd)
+			cap := uint32(vAtoi(f[2]))
+			if cap > 1<<17 {
+				out = append(out, "bad-op")
+				continue
+			}
+			out = append(out, func() (line string) {
+				defer func() {
+					if r := recover(); r != nil {
+						c.setFail("queue-crosswire", fmt.Sprintf("qmgr %s %d: panic: %v", f[1], cap, r))
+						line = "panic"
+					}
+				}()
+				path := fmt.Sprintf("/dev/shm/verif_c03_%d_%d_queue", os.Getpid(), atomic.AddUint64(&c03Seq, 1))
+				var cq, mq *queueManager
+				var err error
+				if f[1] == "file" {
+					os.Remove(path)
+					if cq, err = createQueueManager(path, cap); err == nil {
+						cq.mmapMapType = MemMapTypeDevShmFile
+						mq, err = mappingQueueManager(path)
+					}
+				} else {
+					if cq, err = createQueueManagerWithMemFd(path, cap); err == nil {
+						var fd2 int
+						if fd2, err = syscall.Dup(cq.memFd); err == nil {
+							mq, err = mappingQueueManagerMemfd(path, fd2)
+						}
+					}
+				}
+				if err != nil {
+					if cq != nil {
+						cq.unmap()
+					}
+					c.setFail("queue", "creating / mapping the queue memory failed: "+err.Error())
+					return "err"
+				}
+				defer func() {
+					if f[1] == "file" {
+						syscall.Munmap(mq.mem)
+					} else {
+						mq.unmap()
+					}
+					cq.unmap()
+				}()
+				line = fmt.Sprintf("csend=%s crecv=%s msend=%s mrecv=%s", c03ShowQ(cq.sendQueue, cq.mem), c03ShowQ(cq.recvQueue, cq.mem), c03ShowQ(mq.sendQueue, mq.mem), c03ShowQ(mq.recvQueue, mq.mem))
+				if cap > 0 {
+					e := queueElement{seqID: 7, offsetInShmBuf: 8, status: 9}
+					if err := cq.sendQueue.put(e); err != nil {
+						c.setFail("queue", "put on an empty queue failed")
+					}
+					if g, err := mq.recvQueue.pop(); err != nil || g != e {
+						c.setFail("queue-crosswire", "element put on the creator's send queue did not come out of the mapper's receive queue")
+					}
+					if _, err := mq.sendQueue.pop(); err == nil {
+						c.setFail("queue-crosswire", "element put on the creator's send queue came out of the mapper's send queue")
+					}
+					e2 := queueElement{seqID: 17, offsetInShmBuf: 18, status: 19}
+					mq.sendQueue.put(e2)
+					if g, err := cq.recvQueue.pop(); err != nil || g != e2 {
+						c.setFail("queue-crosswire", "element put on the mapper's send queue did not come out of the creator's receive queue")
+					}
+				}
+				return line
+			}())
 		default:
 			out = append(out, "bad-op")
 		}
